@@ -571,3 +571,111 @@ func dependsOnValueDeep(v ssa.Value, target ssa.Value) bool {
 	})
 	return found
 }
+
+// checkThenInsertResult describes, for one map value of a function, how comma-ok lookups relate to stores.
+type checkThenInsertResult struct {
+	Map          ssa.Value
+	Lookups      int
+	Stores       int
+	StoreOnFound bool // some store into the map is reachable only when a lookup found the key (overwrites an entry)
+	ErrOnFound   bool // some return of a non-nil error is dominated by the "found" edge of a lookup
+	StoreOnAbsent bool // some store is dominated by the "absent" edge of a lookup
+}
+
+// ssaCheckThenInsert analyses every map that fn looks up with the comma-ok form: `v, ok := m[k]`. It is written on
+// SSA so that `if ok {…} else {…}`, `if !ok {…} else if … {…}`, early `continue`s and the like all look the same.
+func ssaCheckThenInsert(fn *ssa.Function) []checkThenInsertResult {
+	byMap := map[ssa.Value]*checkThenInsertResult{}
+	var order []ssa.Value
+	rootMap := func(v ssa.Value) ssa.Value {
+		// loads of a local alloc holding the map resolve to the alloc
+		if u, ok := v.(*ssa.UnOp); ok && u.Op == token.MUL {
+			return u.X
+		}
+		return v
+	}
+	type found struct {
+		blk    *ssa.BasicBlock
+		branch bool
+	}
+	foundEdges := map[ssa.Value][]found{}
+	for _, b := range fn.Blocks {
+		for _, ins := range b.Instrs {
+			lk, ok := ins.(*ssa.Lookup)
+			if !ok || !lk.CommaOk {
+				continue
+			}
+			if _, isMap := lk.X.Type().Underlying().(*types.Map); !isMap {
+				continue
+			}
+			m := rootMap(lk.X)
+			r := byMap[m]
+			if r == nil {
+				r = &checkThenInsertResult{Map: m}
+				byMap[m] = r
+				order = append(order, m)
+			}
+			r.Lookups++
+			// the ok component and the branches on it
+			if refs := lk.Referrers(); refs != nil {
+				for _, ref := range *refs {
+					ex, isEx := ref.(*ssa.Extract)
+					if !isEx || ex.Index != 1 {
+						continue
+					}
+					for _, ib := range fn.Blocks {
+						i := ifOf(ib)
+						if i == nil {
+							continue
+						}
+						cond, pos := condPolarity(i.Cond)
+						if cond == ssa.Value(ex) {
+							foundEdges[m] = append(foundEdges[m], found{ib, pos})
+						}
+					}
+				}
+			}
+		}
+	}
+	for _, b := range fn.Blocks {
+		for _, ins := range b.Instrs {
+			switch x := ins.(type) {
+			case *ssa.MapUpdate:
+				m := rootMap(x.Map)
+				r := byMap[m]
+				if r == nil {
+					continue
+				}
+				r.Stores++
+				for _, fe := range foundEdges[m] {
+					if edgeDominates(fe.blk, fe.branch, b) {
+						r.StoreOnFound = true
+					}
+					if edgeDominates(fe.blk, !fe.branch, b) {
+						r.StoreOnAbsent = true
+					}
+				}
+			case *ssa.Return:
+				if len(x.Results) == 0 {
+					continue
+				}
+				last := x.Results[len(x.Results)-1]
+				if !isErrorType(last.Type()) || isNilConst(last) {
+					continue
+				}
+				for m, fes := range foundEdges {
+					for _, fe := range fes {
+						if edgeDominates(fe.blk, fe.branch, b) {
+							byMap[m].ErrOnFound = true
+						}
+					}
+				}
+			}
+		}
+	}
+	var out []checkThenInsertResult
+	for _, m := range order {
+		out = append(out, *byMap[m])
+	}
+	return out
+}
